@@ -317,33 +317,14 @@ def suite_traces(chk):
     """The repository's own test-suite as a source of executions: every loading call a test makes (schemas and
     configurations from files, URLs, packages, zip archives, with good and with broken input) is recorded by
     zcv.suite_plugin and becomes one trace of the resource discipline."""
-    import json
-    import subprocess
-    import sys
-    from ..core import REPO, VERIF
-    d = tlc.mkscratch("zcv-suite-")
-    out = os.path.join(d, "spans.json")
-    try:
-        env = dict(os.environ, ZCV_SUITE_OUT=out, PYTHONDONTWRITEBYTECODE="1",
-                   PYTHONPATH=os.pathsep.join([os.path.join(REPO, "src"), os.path.join(VERIF, "harness")]))
-        try:
-            p = subprocess.run([sys.executable, "-m", "pytest", "-q", "-x", "--no-header", "-p", "no:cacheprovider",
-                                "-p", "zcv.suite_plugin", "--basetemp", os.path.join(d, "bt"),
-                                "--deselect", "src/ZConfig/tests/test_validator.py::TestValidator::test_schema_only",
-                                os.path.join(REPO, "src", "ZConfig")],
-                               cwd=REPO, env=env, stdout=subprocess.PIPE, stderr=subprocess.STDOUT, text=True, timeout=600)
-            tail = p.stdout.strip().splitlines()[-1:] if p.stdout else []
-        except subprocess.TimeoutExpired:
-            tail = ["timed out"]
-        if not os.path.exists(out):
-            chk.note("suite_traces", {"spans": 0, "pytest": tail})
-            return []
-        doc = json.load(open(out))
-    finally:
-        shutil.rmtree(d, ignore_errors=True)
+    from .. import suite
+    spans, tail = suite.run_suite()
+    if spans is None:
+        chk.note("suite_traces", {"spans": 0, "pytest": tail})
+        return []
     traces = []
     names = {}
-    for sp in doc["spans"]:
+    for sp in spans:
         ev = []
         for k, u in sp["events"]:
             ev.append([k, names.setdefault(u, "u%d" % len(names))])
@@ -351,11 +332,11 @@ def suite_traces(chk):
                        "_what": {"test": sp["test"], "entry": sp["entry"], "ended": sp["ended"],
                                  "urls": sorted({u for _, u in sp["events"]})[:8]}})
     ended = {}
-    for sp in doc["spans"]:
+    for sp in spans:
         k = "returned" if sp["ended"] == "returned" else "raised"
         ended[k] = ended.get(k, 0) + 1
-    chk.note("suite_traces", {"spans": len(traces), "tests_with_a_load": len({sp["test"] for sp in doc["spans"]}),
-                              "ended": ended, "with_several_resources": sum(1 for sp in doc["spans"] if sp["resources"] > 1),
+    chk.note("suite_traces", {"spans": len(traces), "tests_with_a_load": len({sp["test"] for sp in spans}),
+                              "ended": ended, "with_several_resources": sum(1 for sp in spans if sp["resources"] > 1),
                               "pytest": tail})
     return traces
 
